@@ -275,6 +275,11 @@ func TestCheck(t *testing.T) {
 		if staged {
 			proto = func(c *config.Blockchain) { vchain.StagedForks(c) }
 			pname = "staged-forks"
+		} else if hi%5 == 2 {
+			// a chain on which only the older hardforks are enabled
+			stage := []string{"Cockatrice", "none", "Echidna", "Aspidochelone"}[(hi/5)%4]
+			proto = func(c *config.Blockchain) { vchain.PartialForks(c, stage) }
+			pname = "forks-up-to-" + stage
 		}
 		var hist *vchain.History
 		stop := false
